@@ -57,7 +57,7 @@ out.append('derived from the mechanisms one has read is narrower than the set of
 out.append('breakage is what shows where — and the hit rate of existing rules on fresh seeds (about half → 2/20 → 6/20 over the')
 out.append('rounds: the first authors went for the mechanism the property text names, which the design had read; later ones had to look elsewhere) is an honest measure of how far that is from done.')
 out.append('Round d (fifteen seeds, properties C01–C15, told to avoid the areas of a–c): 4 of 15 were reported by the rules as they stood (C01d, C04d, C06d, C10d);')
-out.append('four more after rules written for them and generalised over all like sites (C05.9, C04.7, C07.8, C12.8); seven are **not detected** and stay so in the table — see §10.9.\n')
+out.append('nine more after rules written over all like sites (C05.9, C04.7, C07.8, C12.8, C13.8, C09.8, C14.6, C08.7, C11.10); C02d and C15d are **not detected** — see §10.9.\n')
 det = {}
 if os.path.exists(V + '/seeded/detection.json'):
     det = json.load(open(V + '/seeded/detection.json'))
